@@ -73,6 +73,7 @@ class Agg(V):
         self.fields = fields    # list of V
         self.ty = ty
         self.origin = origin    # name of the Sym this was refined from (for reporting)
+        self.ox = None          # structured expression of that Sym
 
     def __repr__(self):
         if self.adt == 'tuple':
@@ -141,7 +142,9 @@ class Tokens(V):
 def clone_value(v):
     """values are immutable except aggregates (written in place through places): copy those, share the rest"""
     if isinstance(v, Agg):
-        return Agg(v.adt, v.variant, [clone_value(x) for x in v.fields], v.ty, v.origin)
+        c = Agg(v.adt, v.variant, [clone_value(x) for x in v.fields], v.ty, v.origin)
+        c.ox = v.ox
+        return c
     if isinstance(v, Closure):
         return Closure(v.path, [clone_value(x) for x in v.captures])
     return v
@@ -385,7 +388,9 @@ class FDI:
         for (vn, fl, ftys) in vs:
             if vn == variant or (variant is None and len(vs) == 1):
                 fields = [Sym(f"{sym.n}.{fn}", fty, ('field', sym.x, fn)) for fn, fty in zip(fl, ftys)]
-                return Agg(head, vn, fields, ty=ty, origin=sym.n)
+                r = Agg(head, vn, fields, ty=ty, origin=sym.n)
+                r.ox = sym.x
+                return r
         return None
 
     def resolve(self, st, v):
@@ -404,6 +409,9 @@ class FDI:
 
     def _project(self, st, v, p, write):
         """p = ('f', index, name, ty) | ('d', variant name)"""
+        if isinstance(v, Ref) and p[0] in ('d', 'f'):
+            # an `Option<&T>` that a pass-through model represents by `&Option<T>`: the payload is a reference into the pointee
+            return Ref(v.cell, list(v.proj) + [p])
         if p[0] == 'd':
             if isinstance(v, Sym):
                 r = self.refine_sym(st, v, p[1])
@@ -653,6 +661,9 @@ class FDI:
         if k == 'discr':
             v = self.read_place(st, fr, rv['place'])
             v = self.resolve(st, v)
+            for _ in range(3):
+                if isinstance(v, Ref):
+                    v = self.resolve(st, self.read_cell_path(st, v.cell, v.proj))
             if isinstance(v, Agg):
                 if v.adt in ('tuple', 'array'):
                     return Const(0)
@@ -897,7 +908,8 @@ class FDI:
                 caller = st.frames[-1]
                 cont = fr.ret_to
                 if callable(cont):
-                    cont(st, caller, rv)
+                    if cont(st, caller, rv) is True:
+                        return          # the continuation consumed the state (forked / finished / cut)
                 else:
                     dest, target = cont
                     self.write_place(st, caller, dest, rv)
@@ -1069,6 +1081,18 @@ class FDI:
         return self.ret(st, fr, t, Sym(f"{name}({','.join(self.describe(st, a) for a in args)})", t['dest_ty'],
                                        ('call', name, tuple(self.xof(st, a) for a in args))))
 
+    def extern_value(self, st, name, args, dest_ty, line=None, fn=None):
+        """result of a call that is not interpreted, issued by a model: effect entry if designated, atom otherwise"""
+        for r in self.effects:
+            if r.search(name):
+                st.effects.append((name, [self.describe(st, a) for a in args], {'line': line, 'fn': fn, 'x': [self.xof(st, a) for a in args],
+                                                                                'n': len(st.effects) + 1, 'ci': len(st.cond)}))
+                k = len(st.effects)
+                return Sym(f"{name}#{k}", dest_ty, ('eff', name, k, tuple(self.xof(st, a) for a in args)))
+        if any(isinstance(a, Unknown) for a in args):
+            return Unknown(f"{name} on unknown")
+        return Sym(f"{name}({','.join(self.describe(st, a) for a in args)})", dest_ty, ('call', name, tuple(self.xof(st, a) for a in args)))
+
     def havoc_mut_args(self, st, fr, t, args):
         for i, a in enumerate(t['args']):
             if a['k'] not in ('copy', 'move') or a['place']['p']:
@@ -1099,6 +1123,8 @@ class FDI:
                 return v.origin
             if v.adt == 'tuple':
                 return '(' + ','.join(self.describe(st, x, depth + 1) for x in v.fields) + ')'
+            if v.adt.startswith('iter:'):
+                return f"{v.adt[5:]}({','.join(self.describe(st, x, depth + 1) for x in v.fields)})"
             return f"{v.adt.split('::')[-1]}::{v.variant}" + ('(' + ','.join(self.describe(st, x, depth + 1) for x in v.fields) + ')' if v.fields else '')
         return v.name()
 
@@ -1118,7 +1144,7 @@ class FDI:
             return v.x
         if isinstance(v, Agg):
             if v.origin and depth > 0:
-                return ('atom', v.origin)
+                return v.ox if v.ox is not None else ('atom', v.origin)
             return ('agg', v.adt, v.variant, tuple(self.xof(st, x, depth + 1) for x in v.fields))
         if isinstance(v, Tokens):
             return ('tokens', tuple(v.toks))
@@ -1225,6 +1251,7 @@ def m_is_variant(variant, negate=False):
             if not vs:
                 return Sym(f"{name.split('::')[-1]}({v.n})", 'bool')
             atom = f"variant({v.n})"
+            st.atom_info.setdefault(atom, {'kind': 'variant', 'of': v.x, 'ty': v.ty})
             cur = st.cond_map.get(atom)
             alts = []
             for (vn, fl, ftys) in vs:
@@ -1282,6 +1309,7 @@ def m_unwrap_or(I, st, fr, t, args, name):
         vs = I.adt_variants(v.ty) if v.ty else None
         if vs:
             atom = f"variant({v.n})"
+            st.atom_info.setdefault(atom, {'kind': 'variant', 'of': v.x, 'ty': v.ty})
             cur = st.cond_map.get(atom)
             alts = []
             for (vn, fl, ftys) in vs:
@@ -1314,13 +1342,14 @@ def _fork_option_then(I, st, fr, t, v, handler):
         if not vs:
             return None
         atom = f"variant({v.n})"
+        st.atom_info.setdefault(atom, {'kind': 'variant', 'of': v.x, 'ty': v.ty})
         cur = st.cond_map.get(atom)
         todo = [x for x in vs if cur is None or cur == x[0]]
         for i, (vn, fl, ftys) in enumerate(todo):
             s2 = st if i == len(todo) - 1 else st.fork()
             if cur is None:
                 s2.decide(atom, vn)
-            r = I.refine_sym(s2, Sym(v.n, v.ty), vn)
+            r = I.refine_sym(s2, v, vn)
             if r is not None:
                 s2.refine[v.n] = r
             payload = r.fields[0] if (r is not None and r.fields) else None
@@ -1414,6 +1443,7 @@ def m_try_branch(I, st, fr, t, args, name):
         vs = I.adt_variants(v.ty) if v.ty else None
         if vs:
             atom = f"variant({v.n})"
+            st.atom_info.setdefault(atom, {'kind': 'variant', 'of': v.x, 'ty': v.ty})
             cur = st.cond_map.get(atom)
             alts = []
             for (vn, fl, ftys) in vs:
@@ -1433,6 +1463,36 @@ def m_from_residual(I, st, fr, t, args, name):
         if v.variant == 'None':
             return Agg('std::option::Option', 'None', [])
     return Sym(f"residual({I.describe(st, v)})", t['dest_ty'])
+
+
+def m_opt_as_ref(I, st, fr, t, args, name):
+    """Option/Result::as_ref / as_mut / as_deref(_mut): `&Option<T>` -> `Option<&T>` with the payload a reference into the pointee"""
+    a = args[0]
+    if not isinstance(a, Ref):
+        return a
+    v = I.resolve(st, I.read_cell_path(st, a.cell, a.proj))
+    head = 'std::option::Option' if 'Option' in name else 'std::result::Result'
+
+    def mk(vn, has_payload):
+        return Agg(head, vn, [Ref(a.cell, list(a.proj) + [('d', vn), ('f', 0, '0', None)])] if has_payload else [])
+    if isinstance(v, Agg) and v.variant is not None:
+        return mk(v.variant, bool(v.fields))
+    # an atom: stay lazy (`&Option<T>` stands for `Option<&T>`; discriminant reads and payload projections follow the reference),
+    # so that a pass-through use (e.g. handing `x.as_deref()` to a callee) does not fork
+    return a
+
+
+def m_opt_copied(I, st, fr, t, args, name):
+    v = _opt_variant(I, st, args[0])
+    if isinstance(v, Agg) and v.variant in ('Some', 'Ok') and v.fields and isinstance(v.fields[0], Ref):
+        r = v.fields[0]
+        try:
+            return Agg(v.adt, v.variant, [clone_value(I.read_cell_path(st, r.cell, r.proj))])
+        except Exception:
+            return v
+    if isinstance(v, Agg):
+        return v
+    return args[0]
 
 
 def m_option_take(I, st, fr, t, args, name):
@@ -1507,8 +1567,8 @@ def m_cmp_max(I, st, fr, t, args, name):
 DEFAULT_MODELS = {
     r'as std::ops::Deref>::deref$|as std::ops::DerefMut>::deref_mut$': m_deref,
     r'as std::convert::AsRef<.*>>::as_ref$|as std::borrow::Borrow<.*>>::borrow$|as std::convert::AsMut<.*>>::as_mut$|^std::convert::AsRef::as_ref$|^std::borrow::Borrow::borrow$': m_passthrough,
-    r'^std::option::Option::<T>::(as_ref|as_mut|as_deref|as_deref_mut|copied|cloned)$|^std::result::Result::<T, E>::(as_ref|as_mut)$': m_passthrough,
-    r'^std::option::Option::<&(mut )?T>::(copied|cloned)$': m_passthrough,
+    r'^std::option::Option::<T>::(as_ref|as_mut|as_deref|as_deref_mut)$|^std::result::Result::<T, E>::(as_ref|as_mut|as_deref|as_deref_mut)$': m_opt_as_ref,
+    r'^std::option::Option::<T>::(copied|cloned)$|^std::option::Option::<&(mut )?T>::(copied|cloned)$|^std::result::Result::<&(mut )?T, E>::(copied|cloned)$': m_opt_copied,
     r'as std::clone::Clone>::clone$': m_clone,
     r'as std::convert::(From|Into)<.*>>::(from|into)$': m_passthrough,
     r'^std::option::Option::<T>::is_some$|^std::result::Result::<T, E>::is_ok$': None,  # filled below
@@ -1523,6 +1583,8 @@ DEFAULT_MODELS = {
     r'as std::cmp::PartialEq(<.*>)?>::(eq|ne)$|^std::cmp::PartialEq::(eq|ne)$|<impl std::cmp::PartialEq(<.*>)? for .*>::(eq|ne)$': m_matches_eq,
     r'as std::cmp::PartialOrd(<.*>)?>::(lt|le|gt|ge)$|^std::cmp::PartialOrd::(lt|le|gt|ge)$': m_partial_ord,
 }
+import fdi_iter as _it      # noqa: E402  (iterator adaptors and consumers; registers its models below)
+_it.register(DEFAULT_MODELS)
 DEFAULT_MODELS[r'^std::option::Option::<T>::is_some$'] = m_is_variant('Some')
 DEFAULT_MODELS[r'^std::option::Option::<T>::is_none$'] = m_is_variant('None')
 DEFAULT_MODELS[r'^std::result::Result::<T, E>::is_ok$'] = m_is_variant('Ok')
